@@ -24,8 +24,8 @@ type hist struct {
 	t     *topo
 	main  *node
 	// twins rebuilt after each configuration change
-	allUp    *node // fresh build, every backend up: tells the designated sub-cluster of a key
-	twin     *node // fresh build from a permuted listing, same downs applied: C02
+	allUp    *node                // fresh build, every backend up: tells the designated sub-cluster of a key
+	twin     *node                // fresh build from a permuted listing, same downs applied: C02
 	rampTill map[string]time.Time // addrInfo -> end of slow-start ramp (model)
 	nops     int
 	fails    map[ident]int // C09: failure marks the harness made (SetAvail(true) clears them, as documented in setAvail)
